@@ -3,8 +3,11 @@ package tree
 import (
 	"bytes"
 	"fmt"
+	"strings"
 	"unicode/utf8"
 
+	"verif/internal/entities"
+	"verif/internal/specre"
 	cm "zombiezen.com/go/commonmark"
 )
 
@@ -165,13 +168,23 @@ func (c *ctx) shape(n cm.Node) {
 			if len(t) < 3 || t[0] != '!' || t[1] != '[' || (t[len(t)-1] != ']' && t[len(t)-1] != ')') {
 				bad("image brackets")
 			}
-		case cm.AutolinkKind, cm.HTMLTagKind:
+		case cm.AutolinkKind:
 			if len(t) < 2 || t[0] != '<' || t[len(t)-1] != '>' {
 				bad("angle brackets")
+			} else if specre.Autolink(string(t)) == "" {
+				bad("not an autolink by the spec's definition (scheme of 2-32 characters, a colon, no space, control character, '<' or '>'; or an e-mail address)")
+			}
+		case cm.HTMLTagKind:
+			if len(t) < 2 || t[0] != '<' || t[len(t)-1] != '>' {
+				bad("angle brackets")
+			} else if txt := c.childText(in); specre.HTMLTag(txt) == "" {
+				bad(fmt.Sprintf("its text %q is not an open tag, closing tag, comment, processing instruction, declaration or CDATA section by the spec's definitions", txt))
 			}
 		case cm.CharacterReferenceKind:
 			if len(t) < 3 || t[0] != '&' || t[len(t)-1] != ';' {
 				bad("char ref")
+			} else if !specre.CharRef(string(t), entities.Names) {
+				bad("not a numeric character reference of 1-7 digits / 1-6 hex digits nor a named reference of the HTML5 table")
 			}
 		case cm.HardLineBreakKind:
 			ok := false
@@ -217,6 +230,8 @@ func (c *ctx) shape(n cm.Node) {
 		}
 		if l != b.HeadingLevel() || l < 1 || l > 6 {
 			bad(fmt.Sprintf("atx level %d hashes %d", b.HeadingLevel(), l))
+		} else if lv, _, _ := specre.ATX(firstLine(t)); lv != l {
+			bad("first line is not an ATX heading line by the spec's definition")
 		}
 	case cm.SetextHeadingKind:
 		tt := bytes.TrimRight(t, " \t\r\n")
@@ -230,12 +245,54 @@ func (c *ctx) shape(n cm.Node) {
 	case cm.FencedCodeBlockKind:
 		if !(bytes.HasPrefix(t, []byte("```")) || bytes.HasPrefix(t, []byte("~~~"))) {
 			bad("fence")
+		} else if _, n, _ := specre.Fence(firstLine(t)); n < 3 {
+			bad("first line is not a code fence by the spec's definition")
+		}
+	case cm.ThematicBreakKind:
+		if specre.ThematicBreak(firstLine(t)) < 0 || len(firstLine(t)) != len(t) {
+			bad("not a thematic break line by the spec's definition")
 		}
 	case cm.BlockQuoteKind:
 		if len(t) == 0 || t[0] != '>' {
 			bad("quote marker")
 		}
 	}
+}
+
+// firstLine returns the text up to and including its first line ending.
+func firstLine(t []byte) string {
+	for i, ch := range t {
+		if ch == '\n' {
+			return string(t[:i+1])
+		}
+		if ch == '\r' {
+			if i+1 < len(t) && t[i+1] == '\n' {
+				return string(t[:i+2])
+			}
+			return string(t[:i+1])
+		}
+	}
+	return string(t)
+}
+
+// childText is the text of an HTML tag as its children give it: raw HTML
+// verbatim, indentation as spaces (container prefixes between the lines of a
+// tag are in neither).
+func (c *ctx) childText(in *cm.Inline) string {
+	var sb strings.Builder
+	for i := 0; i < in.ChildCount(); i++ {
+		ch := in.Child(i)
+		switch ch.Kind() {
+		case cm.IndentKind:
+			sb.WriteString(strings.Repeat(" ", ch.IndentWidth()))
+		default:
+			sp := ch.Span()
+			if sp.IsValid() && sp.End <= len(c.src) {
+				sb.Write(c.src[sp.Start:sp.End])
+			}
+		}
+	}
+	return sb.String()
 }
 
 func CheckTree(b *cm.RootBlock) []Viol {
